@@ -543,7 +543,9 @@ def body_cartan(case, ctx):
     # crystallographic case (labels 2, 3, infinity; integral parameters): with dtype=int the
     # same representation comes back in exact integers
     if all(m_ in (1, 2, 3) or X.is_inf(m_) for row in M for m_ in row) and \
-            np.allclose(Cp, np.round(Cp), rtol=0, atol=1e-12) and case["rename"] is None:
+            np.allclose(Cp, np.round(Cp), rtol=0, atol=1e-12) and case["rename"] is None and \
+            all(float(p_["u"]).is_integer() and (p_["v"] is None or float(p_["v"]).is_integer())
+                for p_ in case["params"]):
         ctx.label("integral-cartan-matrix")
         tvi = G.tits_vinberg_rep(params, dtype=int)
         for i, nm in enumerate(names):
